@@ -111,18 +111,52 @@ func foreignFaults(kind string) []string {
 	case "proto":
 		return []string{"read", "empty", "undecodable"}
 	case "pb":
-		return []string{"read", "empty", "wrong", "undecodable"}
+		return []string{"read", "empty", "wrong", "undecodable", "mergepanic", "mergeerr"}
 	case "pbjson":
-		return []string{"read", "empty", "wrong", "undecodable", "unknownfield"}
+		return []string{"read", "empty", "wrong", "undecodable", "unknownfield", "mergepanic", "mergeerr"}
 	case "textpb":
-		return []string{"read", "empty", "wrong", "undecodable"}
+		return []string{"read", "empty", "wrong", "undecodable", "mergepanic", "mergeerr"}
 	}
 	return []string{"read", "empty", "wrong"}
 }
 
+// unmergeable: a well-formed compiled module that gives the application Common of the root file (`Common [e="",
+// a=["a"]]:`, main.go healthy) an attribute of ANOTHER Go type than the text: mergepanic = e is an array (the text has
+// the empty string: mergo assigns by reflection and panics), mergeerr = a is a string (the text has an array: mergo
+// returns "src and dst must be of same type"). Whether such a closure should compile is not ours to say (maybe:*): if
+// it fails it must fail cleanly, naming the file.
+func unmergeable(family, fault string) string {
+	arr := fault == "mergepanic"
+	switch family {
+	case "pb":
+		at := map[string]*sysl.Attribute{"a": {Attribute: &sysl.Attribute_S{S: "v"}}}
+		if arr {
+			at = map[string]*sysl.Attribute{"e": {Attribute: &sysl.Attribute_A{A: &sysl.Attribute_Array{
+				Elt: []*sysl.Attribute{{Attribute: &sysl.Attribute_S{S: "v"}}}}}}}
+		}
+		m := &sysl.Module{Apps: map[string]*sysl.Application{"Common": {Name: &sysl.AppName{Part: []string{"Common"}}, Attrs: at}}}
+		b, _ := proto.MarshalOptions{Deterministic: true}.Marshal(m)
+		return string(b)
+	case "pbjson":
+		if arr {
+			return "{\"apps\": {\"Common\": {\"name\": {\"part\": [\"Common\"]}, \"attrs\": {\"e\": {\"a\": {\"elt\": [{\"s\": \"v\"}]}}}}}}\n"
+		}
+		return "{\"apps\": {\"Common\": {\"name\": {\"part\": [\"Common\"]}, \"attrs\": {\"a\": {\"s\": \"v\"}}}}}\n"
+	}
+	if arr {
+		return "apps: {\n  key: \"Common\"\n  value: {\n    name: {part: \"Common\"}\n    attrs: {\n      key: \"e\"\n      value: {a: {elt: {s: \"v\"}}}\n    }\n  }\n}\n"
+	}
+	return "apps: {\n  key: \"Common\"\n  value: {\n    name: {part: \"Common\"}\n    attrs: {\n      key: \"a\"\n      value: {s: \"v\"}\n    }\n  }\n}\n"
+}
+
+func isSoft(class string) bool { return strings.HasPrefix(class, "maybe:") }
+
 func foreignContent(kind string, i int, fault string) string {
 	k := fkinds[kind]
 	h := healthyForeign(kind, i)
+	if fault == "mergepanic" || fault == "mergeerr" {
+		return unmergeable(k.family, fault)
+	}
 	if n, ok := cutAt(fault); ok {
 		if n < len(h) {
 			return h[:n]
@@ -250,6 +284,8 @@ func textDepth(s string) (depth int, inString bool) {
 //
 //	""          a complete, valid file of its kind: the closure must compile
 //	"cut-other" no demand either way (crash / hang still watched, not sent to Coq)
+//	maybe:*     a compiled module that cannot be merged into what the root file declares: no demand on success, but a
+//	            failure must be clean (an error naming the file, no module, never a crash); the model says: fails
 //	else        a label: the compile must fail naming the file
 //
 // pay: what the model is told about the payload ("ok" | "undecodable")
@@ -257,6 +293,12 @@ func foreignClass(kind string, i int, fault string, noApp bool) (class, pay stri
 	k := fkinds[kind]
 	if fault == "read" {
 		return "read", "ok"
+	}
+	if fault == "mergepanic" {
+		return "maybe:unmergeable-empty", "invalid"
+	}
+	if fault == "mergeerr" {
+		return "maybe:unmergeable-kind", "invalid"
 	}
 	c := foreignContent(kind, i, fault)
 	h := healthyForeign(kind, i)
